@@ -590,6 +590,10 @@ func ruleStatsPure(r *Run) {
 		nRegions++
 		key := shortFunc(fn) + "/stats-region"
 		nbad := 0
+		p.minLenScope = map[*ssa.Function]bool{}
+		for _, g := range p.region(fn) {
+			p.minLenScope[g] = true
+		}
 		for _, b := range blocks {
 			for _, in := range b.Instrs {
 				switch x := in.(type) {
@@ -903,6 +907,43 @@ func (p *Program) minLenAtLeast(v ssa.Value, k int64) bool {
 				// b[:n+5] style: high = something + const >= k
 				if bo, ok := x.High.(*ssa.BinOp); ok && bo.Op == token.ADD {
 					if c, ok := constInt(bo.Y); ok && c-lo >= k && p.nonNegative(bo.X) {
+						continue
+					}
+				}
+				// the bound is a helper's parameter (resize(b, n)): every value passed for it in the region under
+				// judgement is a constant >= k or something non-negative plus such a constant
+				if par, isPar := x.High.(*ssa.Parameter); isPar && lo == 0 && p.minLenScope != nil {
+					helper := par.Parent()
+					idx := -1
+					for i, fp := range helper.Params {
+						if fp == par {
+							idx = i
+						}
+					}
+					all, some := true, false
+					for g := range p.minLenScope {
+						eachInstr(g, func(in ssa.Instruction) {
+							c, ok := in.(ssa.CallInstruction)
+							if !ok || c.Common().IsInvoke() || c.Common().StaticCallee() != helper || idx < 0 || idx >= len(c.Common().Args) {
+								return
+							}
+							some = true
+							a := c.Common().Args[idx]
+							if v, isC := constInt(a); isC && v >= k {
+								return
+							}
+							if bo, isB := a.(*ssa.BinOp); isB && bo.Op == token.ADD {
+								if v, isC := constInt(bo.Y); isC && v >= k && p.nonNegative(bo.X) {
+									return
+								}
+								if v, isC := constInt(bo.X); isC && v >= k && p.nonNegative(bo.Y) {
+									return
+								}
+							}
+							all = false
+						})
+					}
+					if all && some {
 						continue
 					}
 				}
